@@ -21,6 +21,51 @@ class Nondeterminism(Exception):
     """Replaying a recorded prefix met different options: the harness does not own some nondeterminism."""
 
 
+class Hang(KeyboardInterrupt):
+    """Raised by the watchdog when one execution does not finish (an unbounded loop inside a single callback)."""
+
+
+class watchdog:
+    """``with watchdog(seconds):`` raises Hang inside the block when it runs longer than that (wall clock)."""
+
+    def __init__(self, seconds: float = 30.0) -> None:
+        self.seconds = seconds
+
+    def _fire(self, signum: Any, frame: Any) -> None:
+        import traceback as tb
+        self.where = ''.join(tb.format_stack(frame, limit=6))
+        raise Hang(self.where)
+
+    def __enter__(self) -> 'watchdog':
+        import signal
+        self.where = ''
+        self._old = signal.signal(signal.SIGALRM, self._fire)
+        signal.setitimer(signal.ITIMER_REAL, self.seconds)
+        return self
+
+    def __exit__(self, *exc: Any) -> None:
+        import signal
+        signal.setitimer(signal.ITIMER_REAL, 0)
+        signal.signal(signal.SIGALRM, self._old)
+
+
+WATCHDOG_S = 8.0
+
+
+def guarded(run: Any, ch: Any) -> 'ExecResult':
+    """One execution under the watchdog; an execution that does not finish is reported as a 'hang' violation."""
+    try:
+        with watchdog(WATCHDOG_S):
+            return run(ch)
+    except Hang as hang:
+        res = ExecResult()
+        res.capped = True
+        res.violations.append({'clause': 'hang', 'features': {},
+                               'detail': f'execution did not finish within {WATCHDOG_S}s (unbounded loop inside one '
+                                         f'callback?)\n{hang}'})
+        return res
+
+
 class Chooser:
     __slots__ = ('prefix', 'expect', 'log')
 
@@ -84,7 +129,7 @@ def dfs(run: Callable[[Chooser], ExecResult], budget: Dict[str, int], root: Tupl
             break
         prefix, expect = stack.pop()
         ch = Chooser(prefix, expect)
-        res = run(ch)
+        res = guarded(run, ch)
         n_exec += 1
         if on_result is not None:
             on_result(ch, res)
@@ -204,7 +249,13 @@ def unit_key(unit: Any) -> Any:
     return unit[0] if isinstance(unit, tuple) else unit
 
 
+class _StopUnit(Exception):
+    pass
+
+
 _WORKER: Dict[str, Any] = {}
+HANGS = mp.Value('i', 0)  # executions stopped by the watchdog, shared by the forked workers
+MAX_HANGS = 6  # after that many the run is abandoned (it is reported as a violation and as capped anyway)
 
 
 def _init_worker(factory: Callable[..., Any], fargs: tuple) -> None:
@@ -220,8 +271,19 @@ def _run_unit(args: Tuple[Any, Tuple[Tuple[int, ...], Tuple[Any, ...]], Dict[str
 
         def on_result(ch: Chooser, res: ExecResult) -> None:
             agg.add(unit, ch, res)
+            if any(v.get('clause') == 'hang' for v in res.violations):
+                with HANGS.get_lock():
+                    HANGS.value += 1
+            if HANGS.value >= MAX_HANGS:
+                raise _StopUnit()
 
-        out = dfs(run, budget, root=root, deadline=deadline, on_result=on_result)
+        try:
+            if HANGS.value >= MAX_HANGS:
+                raise _StopUnit()
+            out = dfs(run, budget, root=root, deadline=deadline, on_result=on_result)
+        except _StopUnit:
+            out = {'capped': True}
+            agg.extra['units_abandoned_after_hangs'] += 1
         if out['capped']:
             agg.capped += 1
             agg.extra['time_capped_units'] += 1
@@ -241,6 +303,7 @@ def explore_units(factory: Callable[..., Any], fargs: tuple, units: Sequence[Any
     """
     workers = workers or min(16, os.cpu_count() or 1)
     total = Aggregate()
+    HANGS.value = 0
     jobs: List[Tuple[Any, Any, Dict[str, int], Optional[float]]] = []
     prop = factory(*fargs)
     for unit in units:
